@@ -361,13 +361,13 @@ func runCertDirect(t *testing.T, c certCase) (labels []string, extLen int) {
 	switch {
 	case parseErr != nil:
 		labels = append(labels, "result:x509-parse-error")
-		if class == "benign" {
+		if class == "benign" && !noConverse {
 			t.Fatalf("%s: a valid certificate does not parse: %v", ctx, parseErr)
 		}
 		return labels, x.extLen
 	case err != nil:
 		labels = append(labels, "result:rejected", "err:"+errClass(err))
-		if class == "benign" {
+		if class == "benign" && !noConverse {
 			t.Fatalf("%s: a valid certificate of the attacker's own identity was rejected: %v", ctx, err)
 		}
 		if key != nil {
@@ -545,7 +545,7 @@ func runCertHandshake(t *testing.T, rt *rapid.T, c certHSCase) (labels []string)
 	if done && class == "forged" {
 		f.Fatalf("%s: the honest %s completed the handshake against a forged certificate (%s)", ctx, h, o)
 	}
-	if class == "benign" && h.mustAccept(pTLS, x.M.ID) {
+	if class == "benign" && h.mustAccept(pTLS, x.M.ID) && !noConverse {
 		if !o.hsOK || !o.echoOK {
 			f.Fatalf("%s: a valid certificate of the attacker's own identity was not accepted: honest=%s attacker: done=%v err=%v", ctx, o, att.hsDone, att.err)
 		}
